@@ -16,20 +16,25 @@
   specification; `Scan` has none, `Spec.step` answers `skip`) on any table state satisfying the
   structural invariant C11 (`DB.Inv`), with any arguments and any clock value, returns what the
   mathematical semantics returns and leaves tables that stand for exactly the new keyspace —
-  outside three narrow, decidable classes of inputs on which the real code (and therefore the
+  outside two narrow, decidable classes of inputs on which the real code (and therefore the
   model) is known to deviate:
 
     * `Stale` (D05): the operation writes to a name whose stored key row has expired but has not
       been cleaned up yet;
-    * `Repeated` (D07): an intersection over a key list that names some key twice;
     * `DestIsSource` (D08): a storing variant whose destination is also one of its sources.
 
   Each class is exactly an entry of the driver's catalogue (`classifiers_are_the_catalogue`) and is
   shown to be real by kernel-checked witnesses (`stale_add_deviates`, `stale_othertype_deviates`,
-  `stale_store_unique_deviates`, `repeated_inter_deviates`, `repeated_interstore_deviates`,
-  `dest_is_source_deviates`), so the full-strength statement — in particular the property's clauses
-  "including repeated keys" and "even when the destination is also one of the sources" — is FALSE
-  of the code (`full_strength_is_false`).
+  `stale_store_unique_deviates`, `dest_is_source_deviates`), so the full-strength statement — in
+  particular the property's clause "even when the destination is also one of the sources" — is
+  FALSE of the code (`full_strength_is_false`).
+
+  The former third class (D07, an intersection over a key list that names a key twice) is gone:
+  the code now compares `count(distinct kid)` with the number of DISTINCT requested keys, and the
+  clause "including repeated keys" is proved for intersection as well — `set_refines_partial` has
+  no hypothesis on the key list, `inter_is_inter` and `interstore_holds_result` hold for any
+  non-empty key list, and the former counterexamples now agree with the specification
+  (`repeated_inter_now_agrees`, `repeated_interstore_now_agrees`).
 
   `set_seq_refines` lifts the single step to any sequence of set operations at non-decreasing clock
   values; it rests on `set_preserves_wf` (every set operation keeps `SetWF`, unconditionally).
@@ -74,22 +79,17 @@ whose expiry has passed -/
 def Stale (op : Op) (now : Int) (db : DB) : Bool :=
   (Spec.writeKeys op).any (Spec.staleKey db now)
 
-/-- D07, exactly as in `Spec.known`: an intersection whose key list names a key twice -/
-def Repeated : Op → Bool
-  | .setInter ks | .setInterStore _ ks => !Spec.distinct ks
-  | _ => false
-
 /-- D08, exactly as in `Spec.known`: a storing variant whose destination is one of the sources -/
 def DestIsSource : Op → Bool
   | .setDiffStore d ks | .setInterStore d ks | .setUnionStore d ks => ks.contains d
   | _ => false
 
-/-- The three classifiers are the entries D05, D07 and D08 of the catalogue of known findings that
-the driver consults (`Spec.known`), for every set operation. -/
+/-- The two classifiers are the entries D05 and D08 of the catalogue of known findings that the
+driver consults (`Spec.known`), for every set operation: the catalogue lists nothing else for this
+family. -/
 theorem classifiers_are_the_catalogue : ∀ (inTx : Bool) (op : Op) (now : Int) (db : DB), IsSetOp op →
     Spec.known inTx op now db
-      = (if Stale op now db then ["D05"] else []) ++
-        ((if Repeated op then ["D07"] else []) ++ (if DestIsSource op then ["D08"] else [])) := by
+      = (if Stale op now db then ["D05"] else []) ++ (if DestIsSource op then ["D08"] else []) := by
   intro inTx op now db hop
   cases op <;> first | rfl | (cases hop; done)
 
@@ -128,12 +128,11 @@ theorem set_preserves_dbwf : ∀ (op : Op) (now : Int) (db : DB), IsSetOp op →
 uniqueness of `(kid, elem)`, no orphan `rset` rows, cached lengths) and that every set operation
 preserves (`set_preserves_wf`). -/
 theorem set_refines_wf : ∀ (op : Op) (now : Int) (db : DB),
-    IsSetOp op → SetWF db → Stale op now db = false → Repeated op = false →
-    DestIsSource op = false →
+    IsSetOp op → SetWF db → Stale op now db = false → DestIsSource op = false →
     let r := Model.dbRun op now db
     r.out = (Spec.step op now (Spec.abs now db)).out ∧
       Spec.abs now r.db = Spec.purge now (Spec.step op now (Spec.abs now db)).st := by
-  intro op now db hop hw hst hrep hds
+  intro op now db hop hw hst hds
   show (Model.dbRun op now db).out = (Spec.step op now (Spec.abs now db)).out ∧
     Spec.abs now (Model.dbRun op now db).db
       = Spec.purge now (Spec.step op now (Spec.abs now db)).st
@@ -147,10 +146,9 @@ theorem set_refines_wf : ∀ (op : Op) (now : Int) (db : DB),
     exact fin hw' (run_setDiffStore hw now (by simpa [Stale, writeKeys] using hst) hds)
   case setExists k e => exact fin hw' (run_setExists hw now k e)
   case setInter ks =>
-    exact fin hw' (run_setInter hw now (nodup_of_distinct _ (by simpa [Repeated] using hrep)))
+    exact fin hw' (run_setInter hw now ks)
   case setInterStore d ks =>
-    exact fin hw' (run_setInterStore hw now (by simpa [Stale, writeKeys] using hst) hds
-      (nodup_of_distinct _ (by simpa [Repeated] using hrep)))
+    exact fin hw' (run_setInterStore hw now (by simpa [Stale, writeKeys] using hst) hds)
   case setItems k => exact fin hw' (run_setItems hw now k)
   case setLen k => exact fin hw' (run_setLen hw now k)
   case setMove s d e =>
@@ -162,20 +160,20 @@ theorem set_refines_wf : ∀ (op : Op) (now : Int) (db : DB),
     exact fin hw' (run_setUnionStore hw now (by simpa [Stale, writeKeys] using hst) hds)
 
 /-- **C03, partial refinement.** One call of any set operation, on any table state satisfying the
-structural invariant, for any arguments and any clock value, outside the classes `Stale` (D05),
-`Repeated` (D07) and `DestIsSource` (D08): the model returns exactly what the mathematical set
-semantics returns, and the tables afterwards stand for exactly the new keyspace.
+structural invariant, for any arguments and any clock value, outside the classes `Stale` (D05)
+and `DestIsSource` (D08): the model returns exactly what the mathematical set semantics returns,
+and the tables afterwards stand for exactly the new keyspace.
 
 All fourteen operations with a specification are covered (`Covered = isSetOp`): add, delete, the
-three set algebra reads for any list of keys — missing keys and keys of another type included —,
-the three storing variants, exists, items, len, move, pop and random (the last two with the chosen
-element as oracle). No argument-range hypothesis is needed: no set operation takes a Go `int`.
+three set algebra reads for any list of keys — repeated keys, missing keys and keys of another
+type included, for intersection too —, the three storing variants, exists, items, len, move, pop
+and random (the last two with the chosen element as oracle). No argument-range hypothesis is
+needed: no set operation takes a Go `int`.
 
-The full-strength statement (without the three classifiers) is FALSE of the code: see
+The full-strength statement (without the two classifiers) is FALSE of the code: see
 `full_strength_is_false`. -/
 theorem set_refines_partial : ∀ (op : Op) (now : Int) (db : DB),
-    IsSetOp op → db.Inv → Stale op now db = false → Repeated op = false →
-    DestIsSource op = false →
+    IsSetOp op → db.Inv → Stale op now db = false → DestIsSource op = false →
     let r := Model.dbRun op now db
     r.out = (Spec.step op now (Spec.abs now db)).out ∧
       Spec.abs now r.db = Spec.purge now (Spec.step op now (Spec.abs now db)).st :=
@@ -206,7 +204,7 @@ def runSpec : List (Op × Int) → State → List Out × State
 def CleanRun : List (Op × Int) → DB → Prop
   | [], _ => True
   | (op, now) :: rest, db =>
-    IsSetOp op ∧ Stale op now db = false ∧ Repeated op = false ∧ DestIsSource op = false ∧
+    IsSetOp op ∧ Stale op now db = false ∧ DestIsSource op = false ∧
       CleanRun rest (Model.dbRun op now db).db
 
 /-- the clock does not run backwards -/
@@ -227,8 +225,8 @@ theorem set_seq_refines : ∀ (tr : List (Op × Int)) (t : Int) (db : DB), SetWF
       Spec.abs (lastClock t tr) (runModel tr db).2 = (runSpec tr (Spec.abs t db)).2
   | [], _, _, _, _, _ => ⟨rfl, rfl⟩
   | (op, now) :: rest, t, db, hw, hc, hcl => by
-    obtain ⟨hop, hst, hrep, hds, hrest⟩ := hcl
-    obtain ⟨href1, href2⟩ := set_refines_wf op now db hop hw hst hrep hds
+    obtain ⟨hop, hst, hds, hrest⟩ := hcl
+    obtain ⟨href1, href2⟩ := set_refines_wf op now db hop hw hst hds
     have ih := set_seq_refines rest now (Model.dbRun op now db).db
       (set_preserves_wf op now db hop hw) hc.2 hrest
     simp only [runModel, runSpec, lastClock]
@@ -341,15 +339,15 @@ theorem diff_is_diff : ∀ (k : Bytes) (rest : List Bytes) (now : Int) (db : DB)
   rw [setDiffOf_cons]
   simp [List.mem_filter]
 
-/-- "…intersection": exactly the common members — for a non-empty list of pairwise different
-keys. For a repeated key the code answers the empty set (D07, `repeated_inter_deviates`). -/
+/-- "…intersection": exactly the common members, for any non-empty list of keys — repeated
+keys, missing keys and keys of another type included (a missing key or a key of another type
+reads as the empty set, so the intersection is then empty). -/
 theorem inter_is_inter : ∀ (ks : List Bytes) (now : Int) (db : DB), db.Inv → ks ≠ [] →
-    Spec.distinct ks = true →
     ∃ l : List Bytes, (Model.dbRun (.setInter ks) now db).out = .ok (.list (l.map .bytes)) ∧
       l.Nodup ∧ ∀ e, e ∈ l ↔ ∀ k ∈ ks, e ∈ Spec.setAt (Spec.abs now db) k := by
-  intro ks now db hinv hne hd
+  intro ks now db hinv hne
   have hw := SetWF.of_inv hinv
-  refine ⟨_, (run_setInter hw now (nodup_of_distinct ks hd)).1, (ssorted_setInterOf hw now ks).nodup, ?_⟩
+  refine ⟨_, (run_setInter hw now ks).1, (ssorted_setInterOf hw now ks).nodup, ?_⟩
   intro e
   cases ks with
   | nil => exact absurd rfl hne
@@ -393,16 +391,16 @@ theorem diffstore_holds_result : ∀ (d k : Bytes) (rest : List Bytes) (now : In
   rw [setDiffOf_cons]
   simp [List.mem_filter]
 
-/-- the same for `InterStore`, for pairwise different sources (D07) -/
+/-- the same for `InterStore`, for any non-empty list of sources (repeated ones included) -/
 theorem interstore_holds_result : ∀ (d : Bytes) (ks : List Bytes) (now : Int) (db : DB), db.Inv →
-    ks ≠ [] → Spec.distinct ks = true → Spec.staleKey db now d = false → ks.contains d = false →
+    ks ≠ [] → Spec.staleKey db now d = false → ks.contains d = false →
     FreeOrSet (Spec.abs now db) d →
     let r := Model.dbRun (.setInterStore d ks) now db
     ∃ l : List Bytes, r.out = .ok (.int l.length) ∧ Spec.setAt (Spec.abs now r.db) d = l ∧ l.Nodup ∧
       ∀ e, e ∈ l ↔ ∀ k ∈ ks, e ∈ Spec.setAt (Spec.abs now db) k := by
-  intro d ks now db hinv hne hd hns hds hno
+  intro d ks now db hinv hne hns hds hno
   have hw := SetWF.of_inv hinv
-  obtain ⟨h1, h2⟩ := store_dest (run_setInterStore hw now hns hds (nodup_of_distinct ks hd)) hne hno
+  obtain ⟨h1, h2⟩ := store_dest (run_setInterStore hw now hns hds) hne hno
   refine ⟨_, h1, h2, (ssorted_setInterOf hw now ks).nodup, ?_⟩
   intro e
   cases ks with
@@ -515,14 +513,14 @@ and keeps its old expiry: the key still does not exist afterwards (and when it i
 earlier clock it holds the old member "a" as well). -/
 theorem stale_add_deviates :
     dbStaleSet.Inv ∧ Stale (.setAdd kK [eB]) 10 dbStaleSet = true ∧
-    Repeated (.setAdd kK [eB]) = false ∧ DestIsSource (.setAdd kK [eB]) = false ∧
+    DestIsSource (.setAdd kK [eB]) = false ∧
     (Model.dbRun (.setAdd kK [eB]) 10 dbStaleSet).out = .ok (.int 1) ∧
     Spec.get (Spec.abs 10 (Model.dbRun (.setAdd kK [eB]) 10 dbStaleSet).db) kK = none ∧
     Spec.get (Spec.abs 4 (Model.dbRun (.setAdd kK [eB]) 10 dbStaleSet).db) kK
       = some ⟨.set [eA, eB], some 5⟩ ∧
     Spec.get (Spec.purge 10 (Spec.step (.setAdd kK [eB]) 10 (Spec.abs 10 dbStaleSet)).st) kK
       = some ⟨.set [eB], none⟩ := by
-  refine ⟨by unfold DB.Inv; decide, by decide, rfl, rfl, by rfl, by decide +kernel, by decide +kernel,
+  refine ⟨by unfold DB.Inv; decide, by decide, rfl, by rfl, by decide +kernel, by decide +kernel,
     by decide +kernel⟩
 
 /-- D05 is real (other type). The list "k" expired at 5; at 10 the name is free, so an add must
@@ -539,39 +537,49 @@ does not wipe the expired destination, reuses its row and then inserts "a" a sec
 `insert … select` has no conflict clause and fails on the unique index. -/
 theorem stale_store_unique_deviates :
     Stale (.setUnionStore kK [kS]) 10 dbStaleSet = true ∧
-    Repeated (.setUnionStore kK [kS]) = false ∧ DestIsSource (.setUnionStore kK [kS]) = false ∧
+    DestIsSource (.setUnionStore kK [kS]) = false ∧
     (Model.dbRun (.setUnionStore kK [kS]) 10 dbStaleSet).out = .error .sqlUnique ∧
     (Spec.step (.setUnionStore kK [kS]) 10 (Spec.abs 10 dbStaleSet)).out = .ok (.int 1) := by
-  refine ⟨by decide, rfl, by decide, by rfl, by rfl⟩
+  refine ⟨by decide, by decide, by rfl, by rfl⟩
 
-/-- D07 is real. The intersection of "s" = {"a"} with itself is {"a"}; the model (like the code:
-`having count(distinct kid) = 2`) answers the empty set. -/
-theorem repeated_inter_deviates :
-    dbTwo.Inv ∧ Stale (.setInter [kS, kS]) 10 dbTwo = false ∧ Repeated (.setInter [kS, kS]) = true ∧
+/-- D07 is gone. The intersection of "s" = {"a"} with itself is {"a"}; the code used to answer the
+empty set (`having count(distinct kid) = 2`), now it counts the distinct requested keys and the
+model (like the code) answers {"a"}, as the specification does. -/
+theorem repeated_inter_now_agrees :
+    dbTwo.Inv ∧ Stale (.setInter [kS, kS]) 10 dbTwo = false ∧
     DestIsSource (.setInter [kS, kS]) = false ∧
-    (Model.dbRun (.setInter [kS, kS]) 10 dbTwo).out = .ok (.list []) ∧
+    (Model.dbRun (.setInter [kS, kS]) 10 dbTwo).out = .ok (.list [.bytes eA]) ∧
     (Spec.step (.setInter [kS, kS]) 10 (Spec.abs 10 dbTwo)).out = .ok (.list [.bytes eA]) := by
-  refine ⟨by unfold DB.Inv; decide, by decide, by decide, rfl, by rfl, by rfl⟩
+  refine ⟨by unfold DB.Inv; decide, by decide, rfl, by rfl, by rfl⟩
 
-/-- D07 is real (storing variant): the destination "d" ends up empty instead of holding {"a"}. -/
-theorem repeated_interstore_deviates :
+/-- …and the storing variant: the destination "d" ends up holding {"a"}. -/
+theorem repeated_interstore_now_agrees :
     Stale (.setInterStore kD [kS, kS]) 10 dbTwo = false ∧
-    Repeated (.setInterStore kD [kS, kS]) = true ∧ DestIsSource (.setInterStore kD [kS, kS]) = false ∧
-    (Model.dbRun (.setInterStore kD [kS, kS]) 10 dbTwo).out = .ok (.int 0) ∧
-    (Spec.step (.setInterStore kD [kS, kS]) 10 (Spec.abs 10 dbTwo)).out = .ok (.int 1) := by
-  refine ⟨by decide, by decide, by decide, by rfl, by rfl⟩
+    DestIsSource (.setInterStore kD [kS, kS]) = false ∧
+    (Model.dbRun (.setInterStore kD [kS, kS]) 10 dbTwo).out = .ok (.int 1) ∧
+    (Spec.step (.setInterStore kD [kS, kS]) 10 (Spec.abs 10 dbTwo)).out = .ok (.int 1) ∧
+    Spec.setAt (Spec.abs 10 (Model.dbRun (.setInterStore kD [kS, kS]) 10 dbTwo).db) kD = [eA] := by
+  refine ⟨by decide, by decide, by rfl, by rfl, by decide +kernel⟩
+
+/-- …and a repeated key next to a different one: "s" ∩ "t" ∩ "s" = {"a"} ∩ {"b"} = ∅ is still
+empty, because "t" does not hold "a" — not because the count is off. -/
+theorem repeated_inter_disjoint_empty :
+    (Model.dbRun (.setInter [kS, kT, kS]) 10 dbTwo).out = .ok (.list []) ∧
+    (Spec.step (.setInter [kS, kT, kS]) 10 (Spec.abs 10 dbTwo)).out = .ok (.list []) :=
+  ⟨by rfl, by rfl⟩
 
 /-- D08 is real. Storing the union of "s" = {"a"} and "t" = {"b"} into "s" must leave "s" = {"a",
 "b"} and report 2. The model (like the code) wipes "s" first and computes the union of the wiped
 "s" and "t": it reports 1 and leaves "s" = {"b"}. -/
 theorem dest_is_source_deviates :
-    Stale (.setUnionStore kS [kS, kT]) 10 dbTwo = false ∧ Repeated (.setUnionStore kS [kS, kT]) = false ∧
+    dbTwo.Inv ∧ Stale (.setUnionStore kS [kS, kT]) 10 dbTwo = false ∧
     DestIsSource (.setUnionStore kS [kS, kT]) = true ∧
     (Model.dbRun (.setUnionStore kS [kS, kT]) 10 dbTwo).out = .ok (.int 1) ∧
     (Spec.step (.setUnionStore kS [kS, kT]) 10 (Spec.abs 10 dbTwo)).out = .ok (.int 2) ∧
     Spec.setAt (Spec.abs 10 (Model.dbRun (.setUnionStore kS [kS, kT]) 10 dbTwo).db) kS = [eB] ∧
     Spec.setAt (Spec.step (.setUnionStore kS [kS, kT]) 10 (Spec.abs 10 dbTwo)).st kS = [eA, eB] := by
-  refine ⟨by decide, rfl, by decide, by rfl, by rfl, by decide +kernel, by decide +kernel⟩
+  refine ⟨by unfold DB.Inv; decide, by decide, by decide, by rfl, by rfl, by decide +kernel,
+    by decide +kernel⟩
 
 /-- D08 is real (difference): "s" \ "t" stored into "s" must leave "s" = {"a"}; the model leaves
 it empty. -/
@@ -584,48 +592,35 @@ theorem dest_is_source_diff_deviates :
 private theorem int_ne {a b : Int} (h : a ≠ b) : (Except.ok (Val.int a) : Out) ≠ .ok (.int b) := by
   intro he; cases he; exact h rfl
 
-/-- Hence the refinement statement without the three classifiers is false: the property's clauses
-"including repeated keys" and "even when the destination is also one of the sources" do not hold
-of the code. -/
+/-- Hence the refinement statement without the two classifiers is false: the property's clause
+"even when the destination is also one of the sources" does not hold of the code. -/
 theorem full_strength_is_false :
     ¬ (∀ (op : Op) (now : Int) (db : DB), IsSetOp op → db.Inv →
         (Model.dbRun op now db).out = (Spec.step op now (Spec.abs now db)).out ∧
         Spec.abs now (Model.dbRun op now db).db
           = Spec.purge now (Spec.step op now (Spec.abs now db)).st) := by
   intro h
-  have h1 := (h (.setInter [kS, kS]) 10 dbTwo rfl repeated_inter_deviates.1).1
-  rw [repeated_inter_deviates.2.2.2.2.1, repeated_inter_deviates.2.2.2.2.2] at h1
-  cases h1
+  have h1 := (h (.setUnionStore kS [kS, kT]) 10 dbTwo rfl dest_is_source_deviates.1).1
+  rw [dest_is_source_deviates.2.2.2.1, dest_is_source_deviates.2.2.2.2.1] at h1
+  exact int_ne (by decide) h1
 
-/-- Each classifier is needed on its own: with the other two in place the statement is still
+/-- Each classifier is needed on its own: with the other one in place the statement is still
 false. -/
 theorem stale_is_needed :
-    ¬ (∀ (op : Op) (now : Int) (db : DB), IsSetOp op → db.Inv → Repeated op = false →
-        DestIsSource op = false →
+    ¬ (∀ (op : Op) (now : Int) (db : DB), IsSetOp op → db.Inv → DestIsSource op = false →
         (Model.dbRun op now db).out = (Spec.step op now (Spec.abs now db)).out) := by
   intro h
   have h1 := h (.setUnionStore kK [kS]) 10 dbStaleSet rfl stale_add_deviates.1
-    stale_store_unique_deviates.2.1 stale_store_unique_deviates.2.2.1
-  rw [stale_store_unique_deviates.2.2.2.1, stale_store_unique_deviates.2.2.2.2] at h1
-  cases h1
-
-theorem repeated_is_needed :
-    ¬ (∀ (op : Op) (now : Int) (db : DB), IsSetOp op → db.Inv → Stale op now db = false →
-        DestIsSource op = false →
-        (Model.dbRun op now db).out = (Spec.step op now (Spec.abs now db)).out) := by
-  intro h
-  have h1 := h (.setInter [kS, kS]) 10 dbTwo rfl repeated_inter_deviates.1
-    repeated_inter_deviates.2.1 repeated_inter_deviates.2.2.2.1
-  rw [repeated_inter_deviates.2.2.2.2.1, repeated_inter_deviates.2.2.2.2.2] at h1
+    stale_store_unique_deviates.2.1
+  rw [stale_store_unique_deviates.2.2.1, stale_store_unique_deviates.2.2.2] at h1
   cases h1
 
 theorem dest_is_source_is_needed :
     ¬ (∀ (op : Op) (now : Int) (db : DB), IsSetOp op → db.Inv → Stale op now db = false →
-        Repeated op = false →
         (Model.dbRun op now db).out = (Spec.step op now (Spec.abs now db)).out) := by
   intro h
-  have h1 := h (.setUnionStore kS [kS, kT]) 10 dbTwo rfl repeated_inter_deviates.1
-    dest_is_source_deviates.1 dest_is_source_deviates.2.1
+  have h1 := h (.setUnionStore kS [kS, kT]) 10 dbTwo rfl dest_is_source_deviates.1
+    dest_is_source_deviates.2.1
   rw [dest_is_source_deviates.2.2.2.1, dest_is_source_deviates.2.2.2.2.1] at h1
   exact int_ne (by decide) h1
 
@@ -661,16 +656,31 @@ repeated and missing keys, keys of another type, empty key lists, failing moves,
 example : ∀ op ∈ [Op.setAdd kA [eX, eW, eW], .setAdd kN [eX, eY, eX], .setAdd kL [eX], .setAdd kA [],
       .setDelete kA [eX, eW], .setDelete kN [eX], .setDelete kC [eX],
       .setDiff [kA, kB, kN, kL], .setDiff [kA, kA], .setDiff [], .setInter [kA, kB], .setInter [kA, kL],
-      .setInter [], .setUnion [kA, kA, kL, kN, kB], .setUnion [],
+      .setInter [kA, kA], .setInter [kB, kA, kB, kA], .setInter [kA, kN, kA], .setInter [], .setUnion [kA, kA, kL, kN, kB], .setUnion [],
       .setDiffStore kN [kA, kB], .setDiffStore kB [kA, kA], .setDiffStore kL [kA],
       .setInterStore kN [kA, kB], .setInterStore kL [kA, kB], .setInterStore kA [],
+      .setInterStore kN [kA, kB, kA], .setInterStore kC [kB, kB],
       .setUnionStore kN [kA, kB, kL, kA], .setUnionStore kB [kA, kC], .setUnionStore kN [],
       .setExists kA eX, .setExists kL eX, .setItems kA, .setItems kN, .setLen kB, .setLen kC,
       .setMove kA kB eX, .setMove kA kA eX, .setMove kA kN eX, .setMove kA kL eX, .setMove kN kA eX,
       .setMove kA kB eZ, .setPop kA (some eX), .setPop kA (some eZ), .setPop kA none, .setPop kN none,
       .setPop kL (some eX), .setRandom kB (some eZ), .setRandom kB none, .setRandom kN none],
-    IsSetOp op ∧ Stale op 10 demo = false ∧ Repeated op = false ∧ DestIsSource op = false := by
+    IsSetOp op ∧ Stale op 10 demo = false ∧ DestIsSource op = false := by
   decide +kernel
+
+/-- the intersection clause instantiated on repeated keys: "b" ∩ "a" ∩ "b" ∩ "a" = {"y"} -/
+example : (Model.dbRun (.setInter [kB, kA, kB, kA]) 10 demo).out = .ok (.list [.bytes eY]) := by rfl
+
+example : ∃ l : List Bytes, (Model.dbRun (.setInter [kB, kA, kB, kA]) 10 demo).out
+      = .ok (.list (l.map .bytes)) ∧ l.Nodup ∧
+      ∀ e, e ∈ l ↔ ∀ k ∈ [kB, kA, kB, kA], e ∈ Spec.setAt (Spec.abs 10 demo) k :=
+  inter_is_inter _ 10 demo (by unfold DB.Inv; decide) (by simp)
+
+/-- `InterStore("n", "a", "b", "a")` reports 1 and "n" becomes {"y"} -/
+example :
+    (Model.dbRun (.setInterStore kN [kA, kB, kA]) 10 demo).out = .ok (.int 1) ∧
+    Spec.setAt (Spec.abs 10 (Model.dbRun (.setInterStore kN [kA, kB, kA]) 10 demo).db) kN = [eY] :=
+  ⟨by rfl, by decide +kernel⟩
 
 /-- the clauses instantiated on `demo`: "a" ∪ "a" ∪ "l" ∪ "n" ∪ "b" = {"x","y","z"} -/
 example : (Model.dbRun (.setUnion [kA, kA, kL, kN, kB]) 10 demo).out
@@ -693,17 +703,17 @@ example :
       = some ⟨.set [], some 100⟩ := by decide +kernel
 
 /-- a run on `demo` that satisfies the hypotheses of `set_seq_refines`: add, move, the clock
-advances, store an intersection, pop, store a union over a key that has expired meanwhile -/
+advances, store an intersection (over a key list with a repeated key), pop, store a union over a key that has expired meanwhile -/
 def demoRun : List (Op × Int) :=
   [(.setAdd kN [eX, eZ], 10), (.setMove kA kN eY, 11), (.setInterStore kC [kA], 11),
-   (.setInterStore kD [kB, kN], 12), (.setPop kN (some eZ), 12), (.setUnionStore kA [kB, kN, kD], 200),
+   (.setInterStore kD [kB, kN, kB], 12), (.setPop kN (some eZ), 12), (.setUnionStore kA [kB, kN, kD], 200),
    (.setLen kA, 200)]
 
 instance decCleanRun : ∀ tr db, Decidable (CleanRun tr db)
   | [], _ => isTrue trivial
   | (op, now) :: rest, db =>
     have := decCleanRun rest (Model.dbRun op now db).db
-    inferInstanceAs (Decidable (_ ∧ _ ∧ _ ∧ _ ∧ _))
+    inferInstanceAs (Decidable (_ ∧ _ ∧ _ ∧ _))
 
 instance decClockOk : ∀ t tr, Decidable (ClockOk t tr)
   | _, [] => isTrue trivial
